@@ -55,12 +55,16 @@ func (g *bundleGen) addRootOp(p string, schema obj) {
 func (g *bundleGen) plantPlus() {
 	r := g.r
 	rd := g.docs[0]
+	lonelyDangling := false
 	if g.on("plusDangling") {
+		// sometimes the dangling $ref is (nearly) all there is: nothing else keeps a definition alive, so that with
+		// RemoveUnused - or with no definitions at all - the document reaches the end of Flatten with an empty definitions section
+		lonelyDangling = r.P(35)
 		ref := obj{"$ref": "#/definitions/MissingDef"}
-		if len(g.docs) > 1 && r.P(50) {
+		if len(g.docs) > 1 && r.P(50) && !(lonelyDangling && r.P(70)) {
 			ref = obj{"$ref": refTo(rd, g.docs[1], "definitions", "MissingRemoteDef")}
 		}
-		if r.P(50) {
+		if r.P(50) && !(lonelyDangling && r.P(70)) {
 			g.addRootDef("hasDangling", obj{"type": "object", "properties": obj{"gone": ref}})
 			g.addRootOp("/dangling", obj{"$ref": "#/definitions/hasDangling"})
 		} else {
@@ -254,6 +258,21 @@ func (g *bundleGen) plantPlus() {
 				g.addRootDef("opPtr", obj{"$ref": mkRef("", "info")})
 			case 2:
 				g.addRootOp("/opptr", obj{"$ref": mkRef("", "paths", p, "get")})
+			}
+		}
+	}
+	if lonelyDangling {
+		for _, p := range sortedKeys(rd.paths) {
+			if p != "/dangling" && p != "/dangling/{id}" {
+				delete(rd.paths, p)
+			}
+		}
+		rd.params, rd.responses, rd.pathItems = obj{}, obj{}, obj{}
+		if r.P(50) {
+			for _, n := range sortedKeys(rd.defs) {
+				if n != "hasDangling" {
+					delete(rd.defs, n)
+				}
 			}
 		}
 	}
